@@ -11,7 +11,7 @@ ID = 'C17'
 LEVEL = 'exploration'
 BUDGET = {'quick': 200, 'thorough': 2400}
 CHUNK = 2
-RULE = ('Cases: an ancestor with substitution sites >= 2k apart and >= 2k from the ends, 3..10 samples, 2..4 alleles per site (one case in a hundred: 5..7 consecutive sites that all carry all four bases), output prefixes with and without dots, -n at its default, 0, 2 and 10, '
+RULE = ('Cases: an ancestor with substitution sites >= 2k apart and >= 2k from the ends (reference-free mode: one case in eight with sites only k-1..2k-1 from the ends, down to a sequence of exactly 2k-1 bases), 3..10 samples, 2..4 alleles per site (one case in a hundred: 5..7 consecutive sites that all carry all four bases), output prefixes with and without dots, -n at its default, 0, 2 and 10, '
         'samples written in random orientation; the generator checks that every (k-1)-mer over the union of the sample sequences '
         'occurs at one locus on both strands and none is self-complementary.  Reference-free (k in {7,9,11,15,17,21,31,33}): the '
         'column multiset of <out>_snps.fas must equal the planted truth up to order and whole-column complement, names in input '
@@ -24,7 +24,7 @@ RULE = ('Cases: an ancestor with substitution sites >= 2k apart and >= 2k from t
 ASSUMPTIONS = ['the planted truth is the oracle; well-formedness is a direct predicate on the output',
                'union-of-samples uniqueness (DESIGN.md section 8); sites at least 2k from the sequence ends']
 REQUIRED = {t: ['mode:free', 'mode:ref', 'mode:wf', 'ref:ancestor', 'ref:revcomp', 'ref:sample', 'threads>1', 'jitter_runs',
-                'sites_called', 'multiallelic_sites', 'wf_columns_checked', 'vcf_records_checked', 'reference_with_N', 'runs_over_existing_output', 'reference_route:plain', 'reference_route:gz', 'reference_route:gz-multi', 'runs_of_four_allelic_sites', 'dotted_output_prefix', 'runs_with_-n_0'] for t in ('quick', 'thorough')}
+                'sites_called', 'multiallelic_sites', 'wf_columns_checked', 'vcf_records_checked', 'reference_with_N', 'runs_over_existing_output', 'reference_route:plain', 'reference_route:gz', 'reference_route:gz-multi', 'runs_of_four_allelic_sites', 'dotted_output_prefix', 'runs_with_-n_0', 'sites_k-1_from_the_ends'] for t in ('quick', 'thorough')}
 FREE_K = [7, 9, 11, 15, 17, 21, 31, 33]
 REF_K = [15, 17, 21, 31, 33]
 
@@ -74,14 +74,15 @@ def union_unique(seqs, k1):
     return True
 
 
-def gen_snps(rng, k, nsnp, ns, all4=False):
+def gen_snps(rng, k, nsnp, ns, all4=False, margin=None):
     for _ in range(300):
-        L = 4 * k + (nsnp - 1) * (2 * k + rng.randint(0, k)) + rng.randint(0, 3 * k)
+        mg = 2 * k if margin is None else margin
+        L = 2 * mg + (nsnp - 1) * (2 * k + rng.randint(0, k)) + (rng.randint(0, 3 * k) if margin is None else 1)
         anc = G.rseq(rng, L)
         sites = []
-        p = 2 * k + rng.randint(0, k // 2)
+        p = mg + (rng.randint(0, k // 2) if margin is None else 0)
         for _i in range(nsnp):
-            if p >= L - 2 * k:
+            if p >= L - mg:
                 break
             sites.append(p)
             p += 2 * k + rng.randint(0, k)
@@ -204,6 +205,11 @@ def run_case(desc, ctx):
             ns = max(ns, rng.randint(6, 10))
             g = gen_snps(rng, k, rng.randint(5, 7), ns, all4=True)
             res.count('runs_of_four_allelic_sites')
+        elif mode == 'free' and desc['seed'] % 8 == 1:
+            # sites as close to the ends of the common sequence as k-1 bases (a sequence of exactly 2k-1 bases with its one site in
+            # the middle): the statement asks for no distance from the ends, and the pinned tree needs none beyond k-1
+            g = gen_snps(rng, k, rng.randint(1, 3), ns, margin=rng.choice([k - 1, k - 1, k, k + 1, 2 * k - 1]))
+            res.count('sites_k-1_from_the_ends')
         else:
             g = gen_snps(rng, k, rng.randint(1, 6), ns)
         if g is None:
